@@ -66,6 +66,10 @@ OBLIGATIONS = [
      "statement": "eventfd wake-up protocol (write after push_back inside the lock, drainEvt() before process(), both regenerated): for every schedule of any number of senders and the I/O thread a non-empty command queue is always announced (counter > 0, or I/O thread between drain and swap, or the pushing sender just before its write); whenever the I/O thread sleeps with no enqueue in flight the queue is empty and every accepted command was dispatched"},
     {"id": "C01_wake_progress", "theorem": "Iora.C01.wakeup_dispatches_all", "kind": "proved",
      "statement": "from every reachable state with the lock free, three steps of the I/O thread alone (wake, drainEvt, process) take every queued command"},
+    {"id": "C01_wake_start", "theorem": "Iora.C01.wakeup_commands_before_loop_start", "kind": "proved",
+     "statement": "any number k of enqueue calls completed before the I/O thread's first step (before the loop thread exists / before epoll_wait) leave the eventfd counter at k, and the I/O thread's first three steps dispatch all k: the counter is a level, so a write preceding the level-triggered registration is not lost"},
+    {"id": "C01_gen_start", "theorem": "Iora.C01.gen_conforms_start", "kind": "proved",
+     "statement": "start(): the fresh eventfd is published in _eventFd and the queue reopened (_cmdsClosed=false) in ONE _cmdMutex section, published before registered, registered once with EPOLLIN (level-triggered) and before the loop thread is created"},
     {"id": "C01_wake_order_needed", "theorem": "Iora.C01.wakeup_needs_drain_before_process", "kind": "proved",
      "statement": "witness: with process(); drainEvt(); a command enqueued between swap and drain stays queued while the I/O thread sleeps (loopDrainBeforeProcess is load-bearing)"},
     {"id": "C01_wake_write_needed", "theorem": "Iora.C01.wakeup_needs_write_after_push", "kind": "proved",
